@@ -1527,6 +1527,14 @@ fn check_c12(cases: &[Case], results: &[Option<RunResult>]) -> Vec<Violation> {
             (src0.strip_prefix('\n').unwrap_or(src0).to_string(), c.meta.nums()[0] as usize)
         };
         let src: &str = &src_owned;
+        // a top-level block is too narrow only when some character is wider than the width
+        if matches!(r.outcome, Outcome::TooNarrow) && r.regular && prefix == 0 && c.slice == "top" && !c.spec.cfg.overflow && c.spec.cfg.max_wrap.is_none() {
+            let widest = src.chars().map(|ch| str_width(&ch.to_string())).max().unwrap_or(0);
+            if c.spec.width >= 1 && widest <= c.spec.width {
+                v.push(viol(i, "a preformatted block whose every character fits the width is reported too narrow instead of being cut", format!("width {} widest character {}", c.spec.width, widest), None));
+            }
+            continue;
+        }
         let got = match out_lines(&r.outcome) {
             Some(l) => l,
             None => continue,
